@@ -16,5 +16,5 @@ Emit ==
         PrintT(ToJson([w |-> w, pt |-> <<P.x, P.y, P.z, P.mu, P.r1, P.r2>>, F |-> FieldOf(P, P0),
                        J |-> <<J[4][1], J[4][2], J[4][3], J[5][2], J[5][3], J[6][3]>>,
                        E |-> EnergyOf(P, P0), C |-> JacobiOf(P, P0),
-                       T |-> KineticOf(P, P0), G |-> GravOf(P, P0), U |-> UeffOf(P, P0)]))
+                       T |-> KineticOf(P, P0), G |-> GravOf(P, P0), U |-> UeffOf(P, P0), Om |-> OmegaOf(P, P0)]))
 =============================================================================
